@@ -17,14 +17,61 @@ RULE = ("stream pubd (C11 mix): seeded request sequences against the real Reposi
         "branch of a write names truncation, number of files written, what the rsync directory held and where it was cut")
 
 
+WRITER_ORACLES = ("rrdp_serials_monotone", "rrdp_files_current")
+
+
+def concurrent_writers(ctx):
+    """"Serials grow by one per update" judged on the FILES while several writers are at work: the corpus scenario
+    conc/rrdp-writers (request threads publishing and calling the RRDP update beside the scheduler's own update task) through
+    the conc harness; only the two file-level clauses of C11 are judged here (snapshots reach the disk in serial order; once
+    idle the notification on disk is at the publication server's serial) - the rest of such a run is C18's."""
+    import json
+    from pathlib import Path
+    found = False
+    f = vlib.VERIF / "corpus" / "conc" / "rrdp-writers.ops"
+    if not f.exists():
+        return False
+    reps = 2 if ctx.tier == "quick" else 8
+    for i in range(reps):
+        tr = ctx.work / f"writers-{i}.trace"
+        r = vlib.run([vlib.hbin("conc"), "--ops", str(f), "--out", str(tr), "--seed", str(int(ctx.seed) + i)], timeout=3600)
+        if r.returncode != 0:
+            ctx.log(f"conc harness failed on rrdp-writers: {r.stdout[-1500:]}")
+            vlib.report_violation(ctx, "harness-crash", {"harness": "conc", "output": r.stdout[-3000:]}, signature="crash:conc:writers")
+            return True
+        vf = Path(str(tr) + ".verdict")
+        if not vlib.run_model(ctx, "conc", tr, vf):
+            vlib.report_violation(ctx, "model-driver-crash", {"stream": "conc"}, found_input=False)
+            continue
+        cases = vlib.parse_cases(tr, vf)
+        if cases is None:
+            vlib.report_violation(ctx, "model-driver-desync", {"stream": "conc"}, found_input=False)
+            continue
+        vlib.histogram(ctx, cases)
+        ctx.traces_validated += len(cases)
+        for c in cases:
+            for idx, (t, v) in enumerate(c["ops"]):
+                hit = [o for o in WRITER_ORACLES if o in v]
+                if hit and not found:
+                    found = True
+                    vlib.report_violation(ctx, "implementation-vs-oracle", {
+                        "stream": "conc", "harness": "conc", "case": c["id"],
+                        "ops": [vlib.strip_obs(x) for x, _ in c["ops"][: idx + 1]],
+                        "verdict": "FAIL oracle " + " ".join(hit),
+                        "replay_cmd": f"./check {ctx.pid} --replay <this file> (a race: the replay repeats the scenario)",
+                    }, signature="oracle:" + ",".join(hit) + ":writers")
+    return found
+
+
 def check(ctx):
     # body of RrdpServer::find_deltas_truncate_age regenerated from the source; C11Src: generated definition = model function
     vlib.translate(ctx, [("pure_fns:C11", "PureFns.lean")])
     vlib.prove(ctx, ["KrillModel.Props.C11", "KrillModel.Props.C11Src"])
     found = False
-    if vlib.build_harness(ctx, ["pubd"]):
+    if vlib.build_harness(ctx, ["pubd", "conc"]):
         jobs, n, length = (8, 30, 12) if ctx.tier == "quick" else (12, 600, 16)
         found = common.run(ctx, "C11", jobs, n, length)
+        found = concurrent_writers(ctx) or found
     else:
         ctx.failed_obligations.append("harness-build")
     vlib.obligations_broken(ctx, found)
@@ -44,6 +91,25 @@ def check(ctx):
 
 
 def replay(ctx, data):
+    if data.get("harness") == "conc":
+        # a race between writers: repeat the scenario a few times
+        vlib.build_harness(ctx, ["conc"])
+        vlib.prove(ctx, ["KrillModel.Props.C11"])
+        f = ctx.work / "replay.ops"
+        f.write_text("case " + data.get("case", "replay-disk") + "\n" + "\n".join(o for o in data["ops"] if not o.startswith("concrun")) + "\n")
+        from pathlib import Path
+        for i in range(6):
+            tr = ctx.work / f"replay-{i}.trace"
+            vlib.run([vlib.hbin("conc"), "--ops", str(f), "--out", str(tr), "--seed", str(i + 1)], timeout=3600)
+            vf = Path(str(tr) + ".verdict")
+            vlib.run_model(ctx, "conc", tr, vf)
+            bad = [l for l in open(vf) if any(o in l for o in WRITER_ORACLES)]
+            print(f"run {i}: {'FAIL ' + bad[0].strip()[:200] if bad else 'ok'}")
+            if bad:
+                print(f"VIOLATION property={ctx.pid} replay={f}")
+                return 1
+        ctx.cleanup()
+        return 0
     return common.replay(ctx, "C11", data)
 
 
